@@ -295,7 +295,7 @@ func (s *stSess) basicOp(w []string, line string, emit func(string, string), fai
 // compactOp: one production compaction (mvSess.compact: picker, runCompactDef, C12/C13/C14
 // oracles). A read changed by a compaction that jumps over a non-empty level — a state only an
 // incremental StreamWriter run creates: tables at prevLevel-1, above levelTargets().baseLevel —
-// is reported under its own tag (finding F17).
+// is reported under its own tag (finding F20).
 func (s *stSess) compactOp(mv *mvSess, kv map[string]string, emit func(string, string), fail func(string, string)) {
 	var occ []bool
 	for _, lvl := range badger.VerifLevels(mv.db) {
@@ -317,7 +317,7 @@ func (s *stSess) compactOp(mv *mvSess, kv map[string]string, emit func(string, s
 			}
 		}
 		if strings.HasPrefix(tag, "C12-read") && thisL >= 0 && skipped >= 0 {
-			fail("F17:compaction-skips-stream-written-level", fmt.Sprintf("level %d -> %d compaction with level %d non-empty (tables put there by StreamWriter.PrepareIncremental, above the base level): %s", thisL, nextL, skipped, msg))
+			fail("F20:compaction-skips-stream-written-level", fmt.Sprintf("level %d -> %d compaction with level %d non-empty (tables put there by StreamWriter.PrepareIncremental, above the base level): %s", thisL, nextL, skipped, msg))
 			return
 		}
 		fail(tag, msg)
@@ -924,6 +924,20 @@ func (s *stSess) doBackup(w []string, line string, emit func(string, string), fa
 			top = x.Version
 		}
 	}
+	// "All keys with version =< sinceTs will be ignored": only the synthetic delete below a
+	// discard-earlier entry may sit at the since version itself
+	for _, l := range run.lists {
+		for i, x := range l {
+			if sinceTs > 0 && x.Version <= sinceTs {
+				m, _ := kvMeta(x)
+				synthetic := i > 0 && bytes.Equal(l[i-1].Key, x.Key) && l[i-1].Version == x.Version+1 && m == 1 && len(l[i-1].Meta) > 0 && l[i-1].Meta[0]&4 != 0
+				if !synthetic {
+					fail("C24-since", fmt.Sprintf("backup with SinceTs=%d holds key %s at version %d", sinceTs, hx(x.Key), x.Version))
+					break
+				}
+			}
+		}
+	}
 	if maxV != top {
 		fail("C24-maxversion", fmt.Sprintf("Backup returned %d, the highest version written is %d", maxV, top))
 	}
@@ -1061,7 +1075,7 @@ func (s *stSess) doCmpRestore(w []string, line string, emit func(string, string)
 			// the source's history: was the newest write to k a delete / an expired entry that
 			// compaction has since removed together with everything below it?
 			if nv, ok := src.mv.spec.newest([]byte(k), math.MaxUint64, 0); ok && nv.dead(src.mv.now) && a == "absent" && src.mv.spec.compacted {
-				fail("F16:incremental-backup-lost-tombstone", fmt.Sprintf("key %s: the source deleted/expired it at version %d and a compaction dropped that marker before the next incremental backup ran; source reads %q, restored chain reads %q",
+				fail("F19:incremental-backup-lost-tombstone", fmt.Sprintf("key %s: the source deleted/expired it at version %d and a compaction dropped that marker before the next incremental backup ran; source reads %q, restored chain reads %q",
 					hx([]byte(k)), nv.ver, a, b))
 			} else {
 				fail("C24-restored-read", fmt.Sprintf("key %s at ts=max: source reads %q, restored DB reads %q", hx([]byte(k)), a, b))
